@@ -123,7 +123,8 @@ def check (isScript : Bool) (c : Case) : Verdict :=
       let ins := insertsCookie cl h
       let basicOk := (checkSH sp1.fixed none h).isNone ∧ ¬ h.ech
       let cls := hrrClass sp1 h psk basicOk
-      let kind := if (i.getD "id" "").startsWith "Custom-" then "custom" else "parrot"
+      let pre := i.getD "pre" "-"
+      let kind := (if (i.getD "id" "").startsWith "Custom-" then "custom" else "parrot") ++ (if pre = "-" then "" else "+" ++ pre)
       let lenClass := if n ≤ 3 then s!"n{n}" else "n4+"
       -- ---------- the model's prediction ----------
       -- first hello: the described extension list marshals to the recorded bytes
